@@ -403,16 +403,14 @@ def date(year, month_, day):
     if year < 1900:
         year += 1900
 
-    # taking into account negative month and day values
-    year, month_, day = normalize_year(year, month_, day)
-
-    try:
-        result = (dt.datetime(year, month_, day) - DATE_ZERO).days
-        if result <= 60:
-            result -= 1
-    except ValueError:
-        assert (year, month_, day) == LEAP_1900_TUPLE
-        result = 60.0
+    # carry out-of-range months into the year, then count the days from the
+    # first of that month: Excel's calendar has 1900/02/29 as serial 60
+    year += (month_ - 1) // 12
+    month_ = (month_ - 1) % 12 + 1
+    result = (dt.datetime(year, month_, 1) - DATE_ZERO).days
+    if result <= 60:
+        result -= 1
+    result += day - 1
 
     if result < 0:
         return NUM_ERROR
